@@ -25,7 +25,7 @@ if [ $BUILD -eq 0 ] && [ $PRISTINE -eq 0 ] && [ $PATCHED -ne 0 ]; then
 import json,sys
 d,i,prop,needs,t,failed,pr,pa=sys.argv[1:9]
 json.dump({"id":i,"breaks_property":prop,"needs_to_manifest":needs,
- "confirmed":{"worktree_commit":"09dfeb6 (hooks + grid fix)","cargo_build":"ok","cargo_test_no_fail_fast":t.strip(),"failing_tests_with_patch":failed.strip(),
+ "confirmed":{"worktree_commit":"HEAD of /repo at confirmation time (hooks + fixes)","cargo_build":"ok","cargo_test_no_fail_fast":t.strip(),"failing_tests_with_patch":failed.strip(),
               "demo_exit_pristine":int(pr),"demo_exit_patched":int(pa)},
  "how":"git apply patch.diff in a scratch worktree; cargo build --offline; cargo test --offline --no-fail-fast; cargo run --example demo (copied to examples/)"},
  open(d+"/meta.json","w"),indent=1)
